@@ -8,7 +8,7 @@ rp = os.path.join(V, "seeded", "results.json")
 if os.path.exists(rp):
     res = json.load(open(rp))
 for log in sorted(glob.glob("/tmp/vseed-log-*.txt")):
-    m = re.match(r".*/vseed-log-(C\d+)-(\d+)\.txt", log)
+    m = re.match(r".*/vseed-log-(C\d+)-([\w-]+)\.txt", log)
     if not m:
         continue
     sid = f"{m.group(1)}-{m.group(2)}"
